@@ -338,6 +338,23 @@ func (ctx *EvalCtx) ident(name string) CV {
 	// step clauses are checked on every back edge; a local of the loop body that was not assigned on the
 	// path to this edge has no value here: it reads as an arbitrary value of its type (the clause must
 	// not depend on it on such an edge, e.g. by guarding it with the branch condition)
+	// a variable that only lives in phi nodes here (e.g. a named result appended to in a loop)
+	if ctx.frame != nil && ctx.block != nil {
+		if cv, ok := ctx.frame.phiByName(name, ctx.block); ok {
+			return cv
+		}
+	}
+	// ... or in a local cell go/ssa did not lift to registers (named results of functions with defers)
+	if ctx.frame != nil {
+		for _, a := range ctx.frame.fn.Locals {
+			if a.Comment == name {
+				if _, ok := ctx.frame.env[a]; ok {
+					pt := types.Unalias(a.Type()).Underlying().(*types.Pointer).Elem()
+					return CV{ctx.ex.load(ctx.st, ctx.frame.val(a), pt), pt}
+				}
+			}
+		}
+	}
 	if ctx.frame != nil && ctx.prevState != nil {
 		// assigned on only some paths of this iteration: the value it got on those paths (the symbolic
 		// execution keeps it; it is meaningful only under the branch condition, which the clause has to
